@@ -37,6 +37,7 @@ type Runner struct {
 	believedLive map[int]bool
 	believedVals map[int]map[string]any // id -> property -> last value written
 	MaxBatch     int                    // largest random batch (default 5)
+	Trial        bool                   // a what-if run on a copy: beliefs are not updated
 	// counters
 	Batches int
 	Errors  []string
@@ -234,7 +235,7 @@ func b2i(b bool) int {
 
 func (r *Runner) Insert(b []GenPoint) error {
 	err := r.Shard.InsertPoints(realBatch(b))
-	if err == nil {
+	if err == nil && !r.Trial {
 		for _, p := range b {
 			r.believedLive[p.ID] = true
 		}
@@ -251,7 +252,7 @@ func (r *Runner) Update(b []GenPoint) error {
 	for i, u := range ids {
 		upd[i] = IDOf(u)
 	}
-	if err == nil {
+	if err == nil && !r.Trial {
 		r.remember(b, true)
 	}
 	r.Batches++
@@ -268,7 +269,9 @@ func (r *Runner) Delete(ids []int) error {
 	d := make([]int, len(del))
 	for i, u := range del {
 		d[i] = IDOf(u)
-		delete(r.believedLive, IDOf(u))
+		if !r.Trial {
+			delete(r.believedLive, IDOf(u))
+		}
 	}
 	r.Batches++
 	r.TW.Emit("Delete", M{"ids": ids, "ok": b2i(err == nil), "deleted": d, "P": r.proj(), "err": errStr(err)})
@@ -395,8 +398,15 @@ func (r *Runner) InsertBatch() {
 	r.Insert(b)
 }
 
-// RandomBatch issues one random write batch and returns its kind.
-func (r *Runner) RandomBatch() string {
+// Batch is one generated write batch.
+type Batch struct {
+	Kind string // insert | update | delete
+	Pts  []GenPoint
+	IDs  []int
+}
+
+// GenBatch generates one random write batch (nothing is executed).
+func (r *Runner) GenBatch() Batch {
 	x := r.R.Float64()
 	mb := r.MaxBatch
 	if mb == 0 {
@@ -423,17 +433,33 @@ func (r *Runner) RandomBatch() string {
 		if len(b) > 0 && r.R.Intn(12) == 0 && !r.Cfg.Mem {
 			b = append(b, r.gen(b[0].ID, false, 0.8))
 		}
-		r.Insert(b)
-		return "insert"
+		return Batch{Kind: "insert", Pts: b}
 	case x < 0.75:
 		var b []GenPoint
 		for _, id := range r.pickIDs(n, 0.8) {
 			b = append(b, r.gen(id, true, 0.5))
 		}
-		r.Update(b)
-		return "update"
+		return Batch{Kind: "update", Pts: b}
 	default:
-		r.Delete(r.pickIDs(n, 0.7))
-		return "delete"
+		return Batch{Kind: "delete", IDs: r.pickIDs(n, 0.7)}
 	}
+}
+
+// Apply executes a batch on the current shard and logs the event.
+func (r *Runner) Apply(b Batch) error {
+	switch b.Kind {
+	case "insert":
+		return r.Insert(b.Pts)
+	case "update":
+		return r.Update(b.Pts)
+	default:
+		return r.Delete(b.IDs)
+	}
+}
+
+// RandomBatch issues one random write batch and returns its kind.
+func (r *Runner) RandomBatch() string {
+	b := r.GenBatch()
+	r.Apply(b)
+	return b.Kind
 }
